@@ -45,6 +45,7 @@ type c07Case struct {
 	Kind  string   `json:"kind"`
 	Slots []string `json:"slots"` // values of the request's component slots ("\x01" = benign default)
 	Raw   []byte   `json:"raw"`   // kind rawpath: the raw path field
+	Own   bool     `json:"own"`   // the requester's account has its own file root (configured with a trailing slash)
 }
 
 const benign = "\x01"
@@ -92,16 +93,27 @@ func c07Files(root string) {
 	_ = os.WriteFile(filepath.Join(cfg, ".rsrc_Files"), []byte(c07Marker+" rsrc fork name of the root"), 0644)
 	_ = os.WriteFile(filepath.Join(cfg, "Files.incomplete"), []byte(c07Marker+" partial name of the root"), 0644)
 	_ = os.WriteFile(filepath.Join(cfg, "Users", "zz-canary.txt"), []byte(c07Marker+" inside the accounts directory"), 0644)
+	// the private file root of account r, with the same tree and its own sibling fork names
+	rr := filepath.Join(cfg, "Rroot")
+	_ = os.MkdirAll(filepath.Join(rr, "dir", "deep"), 0755)
+	_ = os.WriteFile(filepath.Join(rr, "a.txt"), []byte("0123456789"), 0644)
+	_ = os.WriteFile(filepath.Join(rr, "dir", "inner.txt"), []byte("inner"), 0644)
+	_ = os.WriteFile(filepath.Join(rr, "dir", "deep", "leaf.txt"), []byte("leaf"), 0644)
+	_ = os.MkdirAll(filepath.Join(rr, "Uploads"), 0755)
+	_ = os.MkdirAll(filepath.Join(rr, "other"), 0755)
+	_ = os.WriteFile(filepath.Join(cfg, ".info_Rroot"), []byte(c07Marker+" info fork name of r's root"), 0644)
+	_ = os.WriteFile(filepath.Join(cfg, ".rsrc_Rroot"), []byte(c07Marker+" rsrc fork name of r's root"), 0644)
+	_ = os.WriteFile(filepath.Join(cfg, "Rroot.incomplete"), []byte(c07Marker+" partial name of r's root"), 0644)
 }
 
 // c07Outside: snapshot of the sandbox without the file root's contents and without the accounts
 // directory's direct children (whose legitimate changes are checked separately).
-func c07Outside(wd *world.World) (outside []string, users []string) {
+func c07Outside(wd *world.World, rootName string) (outside []string, users []string) {
 	for _, l := range world.SnapshotDir(wd.Dir) {
 		switch {
-		case strings.HasPrefix(l, "config/Files/"):
-		case strings.HasPrefix(l, "config/Files D"), strings.HasPrefix(l, "config/Files F"), strings.HasPrefix(l, "config/Files L"):
-			outside = append(outside, "config/Files <root itself>")
+		case strings.HasPrefix(l, "config/"+rootName+"/"):
+		case strings.HasPrefix(l, "config/"+rootName+" D"), strings.HasPrefix(l, "config/"+rootName+" F"), strings.HasPrefix(l, "config/"+rootName+" L"):
+			outside = append(outside, "config/"+rootName+" <root itself>")
 		case strings.HasPrefix(l, "config/Users/"):
 			users = append(users, l)
 		default:
@@ -129,22 +141,31 @@ func c07Run(w *explore.Worker, c c07Case) {
 		}
 	}
 	fail := func(clause, detail string) {
-		w.Violation("C07/"+c.Kind+"/"+clause+"/pos="+strings.Join(hostilePos, "+"), fmt.Sprintf("case %s: %s", js(c), detail), len(hostilePos)*100+len(js(c)), c)
+		own := ""
+		if c.Own {
+			own = "own-root/"
+		}
+		w.Violation("C07/"+own+c.Kind+"/"+clause+"/pos="+strings.Join(hostilePos, "+"), fmt.Sprintf("case %s: %s", js(c), detail), len(hostilePos)*100+len(js(c)), c)
 	}
 	seqChecked(w, "C07", c.Kind, c, func() {
 		wd := world.New(world.Cfg{
 			PreserveForks: true,
 			Files:         c07Files,
 			Accounts: []world.Acct{{Login: "guest", Name: "Guest"}, {Login: "u", Name: "u", Password: "pw", Access: world.AllAccess},
+				{Login: "r", Name: "r", Password: "pw", Access: world.AllAccess, FileRoot: "$CONFIG/Rroot/"},
 				{Login: "vic", Name: "Victim", Password: "vp", Access: world.Bits(ref.PReadChat)}},
 		})
 		defer wd.Close()
-		u, r := wd.Connect("10.0.0.1:1001", "u", "pw", "u")
+		login, rootName := "u", "Files"
+		if c.Own {
+			login, rootName = "r", "Rroot"
+		}
+		u, r := wd.Connect("10.0.0.1:1001", login, "pw", "u")
 		if r == nil || r.Err != 0 {
 			w.Broken("C07: login failed")
 			return
 		}
-		before, usersBefore := c07Outside(wd)
+		before, usersBefore := c07Outside(wd, rootName)
 		u.New()
 
 		// path with up to two items: default is the root (no items) for p1/p2
@@ -266,7 +287,7 @@ func c07Run(w *explore.Worker, c c07Case) {
 		case "acctget":
 			send(ref.Tx{Type: ref.TGetUser, Fields: []ref.Fld{ref.FS(ref.FUserLogin, val("login", "vic"))}})
 		}
-		after, usersAfter := c07Outside(wd)
+		after, usersAfter := c07Outside(wd, rootName)
 		if strings.Join(before, "\n") != strings.Join(after, "\n") {
 			fail("outside-root-changed", diffLines(strings.Join(before, "\n"), strings.Join(after, "\n")))
 		}
@@ -351,6 +372,25 @@ func c07Cases(thorough bool) []c07Case {
 						cs = append(cs, c07Case{Kind: kind, Slots: s})
 					}
 				}
+			}
+		}
+	}
+	// the same requests by an account with its own file root: benign form and every single hostile component
+	for _, kind := range c07KindOrder {
+		if strings.HasPrefix(kind, "acct") {
+			continue
+		}
+		slots := c07Kinds[kind]
+		base := make([]string, len(slots))
+		for i := range base {
+			base[i] = benign
+		}
+		cs = append(cs, c07Case{Kind: kind, Slots: append([]string(nil), base...), Own: true})
+		for i := range slots {
+			for _, h := range c07Hostile {
+				sl := append([]string(nil), base...)
+				sl[i] = h
+				cs = append(cs, c07Case{Kind: kind, Slots: sl, Own: true})
 			}
 		}
 	}
